@@ -19,7 +19,7 @@ RULE = ('An explicit table of public callables that take array-like arguments (f
         'where a deg flag exists; acc/mag of arbitrary scale; weights not summing to 1; float64 C-contiguous arrays and views). Every '
         'table entry is called with fresh copies; for constructor-then-method entries (UKF(P=).update, EKF(P=).update, Mahony(b0=).update*, '
         '<Estimator>(weights=).estimate, ...) the arrays given to the constructor are watched during the later method call too. Oracle: the bytes of every ndarray argument (also nested in tuples/lists) are '
-        'identical before and after the call; for methods of Quaternion / QuaternionArray / DCM the receiver (buffer and .A / .array) is watched too unless the call is an explicit in-place request, and a second identical call on the same object must return the same bytes; a second call on a fresh '
+        'identical before and after the call; for methods of Quaternion / QuaternionArray / DCM the receiver (buffer and .A / .array) is watched too unless the call is an explicit in-place request, and a second identical call on the same object must return the same bytes (also for the update / estimate methods of the filters that carry no state between calls: AQUA, Madgwick, AngularRate, Fourati, the single-frame estimators); a second call on a fresh '
         'instance with identical argument values (same NumPy seed for the randomised OLEQ start) returns byte-identical results. '
         'Explicit in-place operations (normalize, remove_jumps, inplace=True) and random generators are exempt. Non-trivial: '
         'the callee has to change its argument internally (non-unit quaternion, degree flag, non-unit vectors, weights not '
@@ -257,6 +257,7 @@ def build_table():
     add('AQUA.updateIMU', lambda d: (AQUA().updateIMU, [d.c('qu'), d.c('gyr'), d.c('acc')], {}))
     add('AQUA.updateMARG', lambda d: (AQUA().updateMARG, [d.c('qu'), d.c('gyr'), d.c('acc'), d.c('mag')], {}))
     add('AQUA.updateMARG[adaptive]', lambda d: (AQUA(adaptive=True).updateMARG, [d.c('qu'), d.c('gyr'), d.c('acc'), d.c('mag')], {}))
+    add('AQUA.updateIMU[adaptive]', lambda d: (AQUA(adaptive=True).updateIMU, [d.c('qu'), d.c('gyr'), d.c('acc')], {}))
     add('AngularRate(gyr)', lambda d: (AngularRate, [d.c('GYR')], {'q0': d.c('q')}))
     add('AngularRate(series)', lambda d: (AngularRate, [d.c('GYR')], {'q0': d.c('q'), 'method': 'series', 'order': 3}))
     add('AngularRate.update', lambda d: (AngularRate().update, [d.c('qu'), d.c('gyr')], {}))
@@ -374,6 +375,12 @@ def _result_arrays(r, out, depth=0):
             _result_arrays(v, out, depth+1)
 
 
+# filters without carried state (Mahony keeps a bias, EKF / UKF / FKF a covariance: those are compared on fresh instances only)
+STATELESS_METHODS = {'AQUA.updateIMU', 'AQUA.updateMARG', 'AQUA.updateMARG[adaptive]', 'AQUA.updateIMU[adaptive]', 'AQUA.estimate', 'AQUA.estimate[acc]',
+                     'Madgwick.updateIMU', 'Madgwick.updateMARG', 'AngularRate.update', 'Fourati.update', 'ROLEQ.attitude_propagation',
+                     'Complementary.am_estimation', 'Complementary.am_estimation[1]', 'EKF.f', 'EKF.h', 'EKF.dhdq', 'EKF.dfdq',
+                     'FKF.measurement_quaternion_acc_mag', 'TRIAD.estimate', 'Davenport.estimate', 'QUEST.estimate', 'FLAE.estimate',
+                     'SAAM.estimate', 'FAMC.estimate', 'FQA.estimate', 'Tilt.estimate'}
 INPLACE_METHODS = {'normalize', 'remove_jumps'}      # explicit in-place operations by name; others announce it with inplace=True
 
 
@@ -435,6 +442,18 @@ def evaluate(case, ctx):
         for p, b, a in before:
             if a.tobytes() != b:
                 ctx.fail(f'{name}|mutates_argument|{p.split("[")[0].split(".")[0]}', f'{name}: {p} changed by the call')
+        if name in STATELESS_METHODS and e1 is None and repeat:
+            # update / estimate methods of filters that carry no state between calls (everything they need is in their arguments and in
+            # the constructor's settings): the same call on the SAME object must give the same result again
+            ctx.label('stateless_method_repeated_on_same_object')
+            np.random.seed(seed % (2**31))
+            try:
+                r1c, e1c = fn(*[np.array(a) if isinstance(a, np.ndarray) else a for a in args], **kw), None
+            except Exception as e:
+                r1c, e1c = None, e
+            if e1c is not None or _flatten(r1c) != _flatten(r1):
+                ctx.fail(f'{name}|not_repeatable_on_same_object', f'{name}: second identical call on the same object '
+                         + (f'raised {type(e1c).__name__}' if e1c is not None else 'returned something else'))
         if watch_recv:
             ctx.label('receiver_watched')
             if _receiver_bytes(recv) != recv_before:
